@@ -230,6 +230,15 @@ func execute(wd *worldDef, hist []int, trace func(string, ...interface{})) (res 
 				}
 			}
 		}
+		if eligibleCount(cur) < eligibleCount(prev) {
+			// who took the last eligible validators away: the running operation if it is about a validator
+			// whose record or freeze flag changed, else the operation whose delayed effect this is
+			if explained {
+				s.emptyOp = ev.Kind
+			} else if s.emptyOp == "" {
+				s.emptyOp = changes[len(changes)-1].op
+			}
+		}
 		if electionPrint(cur) != electionPrint(prev) {
 			op := changes[len(changes)-1].op
 			if explained || (ev != nil && ev.Target == 0 && ev.Kind != "empty" && accepted) {
